@@ -112,9 +112,16 @@ func (l *baseLeaf) URLPath(vals map[string]string, withOptional bool) string {
 				continue
 			}
 
-			buf.WriteString("{")
-			buf.WriteString(e.BindParameters.Parameters[0].Ident)
-			buf.WriteString("}")
+			// Every bind parameter of the list takes part in the path, the only parameter
+			// that is not a bind is the capture limit of a match all.
+			for i, p := range e.BindParameters.Parameters {
+				if i > 0 && p.Value.Regex == nil {
+					continue
+				}
+				buf.WriteString("{")
+				buf.WriteString(p.Ident)
+				buf.WriteString("}")
+			}
 		}
 	}
 
